@@ -78,6 +78,10 @@ func c17(r *vlib.Run) int {
 			c17Reconnect(r, i, crng, keys, keyFiles, client)
 			return
 		}
+		if i%8 == 3 {
+			c17Staggered(r, i, crng, keys, keyFiles, client)
+			return
+		}
 		c17Case(r, i, crng, keys, keyFiles, client)
 	})
 	return n / 2
@@ -414,11 +418,94 @@ func c17Reconnect(r *vlib.Run, i int, rng *rand.Rand, keys []*vlib.Key, keyFiles
 	}
 }
 
+// c17Staggered: an unknown host finishes its key exchange while the prompt
+// about another unknown host is on the screen. The user approves the first
+// prompt and refuses the second: only the host(s) named in the approved prompt
+// may be talked to and recorded.
+func c17Staggered(r *vlib.Run, i int, rng *rand.Rand, keys []*vlib.Key, keyFiles []string, client *vlib.Key) {
+	portA, portC := vlib.FreePort(), vlib.FreePort()
+	for portC == portA {
+		portC = vlib.FreePort()
+	}
+	kA, kC := rng.Intn(5), rng.Intn(5)
+	home, keyFile := r.ClientHome(fmt.Sprintf("c17s-%d", i), client)
+	defer os.RemoveAll(home)
+	lines := c17Unrelated(rng, keys)
+	old := strings.Join(lines, "\n") + "\n"
+	khPath := filepath.Join(home, ".ssh", "known_hosts")
+	os.WriteFile(khPath, []byte(old), 0600)
+	fA, err := startFakeSSHD(r, fmt.Sprintf("c17s-%d-a", i), []int{portA}, []string{keyFiles[kA]}, "", 200)
+	if err != nil {
+		r.Inconclusive("fakesshd")
+		return
+	}
+	defer fA.Stop()
+	delay := 2500 + rng.Intn(900) // the first prompt opens ~2 s after A was seen
+	fC, err := startFakeSSHDDelayed(r, fmt.Sprintf("c17s-%d-c", i), []int{portC}, []string{keyFiles[kC]}, "", 200, fmt.Sprintf("%d:%d", portC, delay))
+	if err != nil {
+		r.Inconclusive("fakesshd")
+		return
+	}
+	defer fC.Stop()
+	firstYes := rng.Intn(4) != 0
+	pr, pw, _ := os.Pipe()
+	defer pw.Close()
+	go func() {
+		time.Sleep(time.Duration(delay+1300) * time.Millisecond) // C's key exchange has happened; prompt 1 still open
+		if firstYes {
+			pw.WriteString("y\n")
+		} else {
+			pw.WriteString("n\n")
+		}
+		time.Sleep(4500 * time.Millisecond) // prompt 2 (about C) opens ~2 s after prompt 1 was answered
+		pw.WriteString("n\nn\nn\n")
+	}()
+	addrA, addrC := fmt.Sprintf("127.0.0.1:%d", portA), fmt.Sprintf("127.0.0.1:%d", portC)
+	args := []string{"--cfg", "none", "--logger", "none", "--key", keyFile, "--user", "tester", "--servers", addrA + "," + addrC, "--files", "/var/log/x.log"}
+	res := runWithStdinFile(r, "dcat", args, home, pr)
+	pr.Close()
+	r.Eval(fmt.Sprintf("staggered|%v|%d", firstYes, delay))
+	r.Count("staggered_prompt_cases", 1)
+	contacted := func(f *fakeSSHDProc) bool {
+		for _, e := range f.Events() {
+			if e.Ev == "shell" || e.Ev == "data" {
+				return true
+			}
+		}
+		return false
+	}
+	after, _ := os.ReadFile(khPath)
+	d := map[string]interface{}{"first_prompt_answer_yes": firstYes, "host_A": addrA, "host_C_delayed": addrC, "delay_ms": delay,
+		"A_contacted": contacted(fA), "C_contacted": contacted(fC), "known_hosts_after": vlib.Trunc(string(after), 2000), "exit": res.Exit}
+	if contacted(fC) || strings.Contains(string(after), knownhosts.Normalize(addrC)+" ") {
+		// what the servers saw and what was recorded stands, even if the client
+		// had to be stopped by the watchdog afterwards
+		d["client_stopped_by_watchdog"] = res.TimedOut
+		r.Violation("untrusted-server-received-commands", d)
+		return
+	}
+	if res.TimedOut {
+		r.Inconclusive("dcat-watchdog")
+		return
+	}
+	if firstYes != contacted(fA) {
+		what := "trusted-server-not-contacted"
+		if !firstYes {
+			what = "untrusted-server-received-commands"
+		}
+		r.Violation(what, d)
+		return
+	}
+	if firstYes && !strings.Contains(string(after), knownhosts.Normalize(addrA)+" ") {
+		r.Violation("newly-trusted-host-not-recorded", d)
+	}
+}
+
 // runWithStdinFile runs a client whose stdin is the given open file.
 func runWithStdinFile(r *vlib.Run, bin string, args []string, home string, stdin *os.File) *vlib.Result {
 	// RunCmd takes a path; pass the pipe through /proc/self/fd
 	p := fmt.Sprintf("/proc/%d/fd/%d", os.Getpid(), stdin.Fd())
-	return vlib.RunCmd(vlib.Cmd{Path: r.Bin(bin), Args: args, Env: []string{"HOME=" + home}, Dir: home, StdinFile: p, Watchdog: 90 * time.Second, NoHangCheck: true})
+	return vlib.RunCmd(vlib.Cmd{Path: r.Bin(bin), Args: args, Env: []string{"HOME=" + home}, Dir: home, StdinFile: p, Watchdog: 45 * time.Second, NoHangCheck: true})
 }
 
 var _ = ssh.InsecureIgnoreHostKey
